@@ -56,10 +56,10 @@ CHECKS = {
     ]),
     "C15": dict(tests=[
         rapid("pure", "TestC15Eval", 40000, 4000000, qs=8, replay="TestC15EvalReplay"),
-        rapid("e2e", "TestC15Index", 320, 16000, qs=16, ts=16, timeout=1200, ttimeout=14000, replay="TestC15IndexReplay"),
+        rapid("e2e", "TestC15Index", 320, 16000, qs=16, ts=16, timeout=1200, ttimeout=14000, replay="TestC15IndexReplay", shrinktime="20s"),
         fuzz("pure", "FuzzC15Parser", 120),
     ]),
-    "C16": dict(tests=[rapid("e2e", "TestC16", 32, 1600, qs=16, ts=16, timeout=1500, ttimeout=14000, replay="(TestC16Replay|TestC16BatchReplay)")]),  # one rapid check = a batch of 12 cases run concurrently
+    "C16": dict(tests=[rapid("e2e", "TestC16", 32, 1600, qs=16, ts=16, timeout=1500, ttimeout=14000, replay="(TestC16Replay|TestC16BatchReplay)", shrinktime="30s")]),  # one rapid check = a batch of 12 cases run concurrently
     "C17": dict(tests=[
         rapid("pure", "TestC17", 32000, 3200000, qs=8, shrinktime="8s"),  # a hanging request costs 10 s per attempt: do not shrink for long
         fuzz("pure", "FuzzC17Request", 120),
